@@ -304,9 +304,17 @@ func (p *rpcProver) verify(tag string, res any, b *chaingen.Block, req *proofReq
 	// storage: the lists are walked as one set (nodes are content addressed, so this cannot accept
 	// anything a per-list walk would reject for a good reason; it avoids depending on list order)
 	sp, _ := m["contracts_storage_proofs"].([]any)
-	if len(sp) != len(req.storage) {
-		p.fail("storage_proof_malformed", "contracts_storage_proofs", "%s: %d contracts_storage_proofs lists for %d requested contracts", tag, len(sp), len(req.storage))
+	// a request may name the same contract in several entries: one list per entry, or one per contract
+	uniq := map[felt.Felt]bool{}
+	for _, s := range req.storage {
+		uniq[s.addr] = true
+	}
+	if len(sp) != len(req.storage) && len(sp) != len(uniq) {
+		p.fail("storage_proof_malformed", "contracts_storage_proofs", "%s: %d contracts_storage_proofs lists for %d requested entries (%d distinct contracts)", tag, len(sp), len(req.storage), len(uniq))
 		return
+	}
+	if len(uniq) < len(req.storage) {
+		c.Probe("rpc_storage_contract_named_in_several_entries")
 	}
 	var ses []PEntry
 	var lists [][]PEntry
@@ -320,6 +328,9 @@ func (p *rpcProver) verify(tag string, res any, b *chaingen.Block, req *proofReq
 		ses = append(ses, es...)
 		lists = append(lists, es)
 		// observation only (never a verdict, never logged): does list i belong to requested contract i?
+		if i >= len(req.storage) || len(uniq) < len(req.storage) {
+			continue
+		}
 		if mc := post.Contracts[req.storage[i].addr]; mc != nil && len(mc.Storage) > 0 {
 			root := refstate.StorageRoot(mc)
 			for j := range req.storage[i].keys {
@@ -343,6 +354,17 @@ func (p *rpcProver) verify(tag string, res any, b *chaingen.Block, req *proofReq
 	// mapping per contract; which position it takes is not judged - the lists may come permuted): a
 	// verifier that walks a contract's own mapping must not need nodes of another contract's mapping
 	for j, s := range req.storage {
+		if len(uniq) < len(req.storage) {
+			// all slots asked for this contract, whichever entry named them
+			merged := s
+			merged.keys = nil
+			for _, o := range req.storage {
+				if o.addr.Equal(&s.addr) {
+					merged.keys = append(merged.keys, o.keys...)
+				}
+			}
+			s = merged
+		}
 		mc := post.Contracts[s.addr]
 		var root felt.Felt
 		if mc != nil {
@@ -447,6 +469,18 @@ func (p *rpcProver) genRequest(b *chaingen.Block) *proofRequest {
 			addr felt.Felt
 			keys []felt.Felt
 		}{a, keys})
+	}
+	if len(req.storage) > 0 && t.Draw("rpc.storage.same.contract.again", 5) == 4 {
+		// the same contract named in a further entry, with other slots
+		a := req.storage[t.Draw("rpc.storage.again.which", len(req.storage))].addr
+		kpool := append([]felt.Felt(nil), g.Slots...)
+		if mc := post.Contracts[a]; mc != nil {
+			kpool = append(kpool, refstate.SortedFelts(mc.Storage)...)
+		}
+		req.storage = append(req.storage, struct {
+			addr felt.Felt
+			keys []felt.Felt
+		}{a, pickDistinct("rpc.slot.again", kpool, 1+t.Draw("rpc.nslots.again", 3))})
 	}
 	return req
 }
